@@ -226,9 +226,9 @@ void Interpret::interp(ASTNode& n) {
                     if (tr == PTRef_Undef)
                         notify_formatted(true, "assertion returns an unknown sort");
                     else {
-                        assertions.push(tr);
                         try {
                             main_solver->insertFormula(tr);
+                            assertions.push(tr);
                             notify_success();
                         } catch (ApiException const & e) {
                             notify_formatted(true, e.what());
